@@ -117,7 +117,7 @@ func vpThorough() bool { return vpRV.Tier > 0 }
 func vpSymbolic() bool { return false }
 
 // Model-only knobs (no effect natively; the real library decides).
-func vpPoolReuse(on bool)  {}
+func vpPoolReuse(on bool) {}
 
 // vpPoolFlush empties every sync.Pool (two GC cycles drop the primary and the
 // victim cache): the next Get calls New.
